@@ -1696,8 +1696,13 @@ class Scheduler:
         job.eval_args = eval_args
 
         # Preprocess arguments before sending them to task function.
-        args, kwargs = job.eval_args
-        args, kwargs = job.args = self._preprocess_args(job, args, kwargs)
+        # A job that had to wait for resource limits re-enters here. Its arguments were
+        # already preprocessed (e.g. Handles were forked), so do not do that a second time.
+        if job.args is None:
+            args, kwargs = job.eval_args
+            args, kwargs = job.args = self._preprocess_args(job, args, kwargs)
+        else:
+            args, kwargs = job.args
 
         # Check cache using eval_hash as key.
         job.eval_hash, job.args_hash = hash_args_eval(self.type_registry, job.task, args, kwargs)
